@@ -20,6 +20,9 @@ LEVEL_TEXT = (
     "time already reached) is executed on a fresh Simulator for an autonomous and a time-dependent linear model; after "
     "every operation the accumulated result is compared with a reference model: strictly increasing absolute axis, "
     "requested points present once, closed-form values per segment, per-segment parameters, refusal iff end <= reached."
+    " Added: a third model variant (the same equations through a derived parameter and a derived variable), "
+    "whole-number time points given as Python ints / an integer array, non-initial roots, and 136 long walks "
+    "through the whole alphabet (every rotation, both directions). "
 )
 LEVEL_NOTE = "trusted: scipy LSODA at atol=rtol=1e-8 (compared at 5e-6), the closed form of the linear ODE, the reference refusal rule taken from the statement"
 RULE = (
